@@ -224,15 +224,9 @@ func handoff(w *World, ru *Rule, m *parserModel, prop string) {
 		return
 	}
 	moves := 0
-	for i, e := range m.cursorPhi.Edges {
-		if e == ssa.Value(m.cursorPhi) {
-			continue
-		}
-		if p, ok := e.(*ssa.Parameter); ok && p.Parent() == m.fn {
-			continue
-		}
+	for _, mv := range m.cursorMoves() {
+		e, pred := mv.val, mv.pred
 		moves++
-		pred := m.cursorPhi.Block().Preds[i]
 		for _, acc := range accs {
 			if prop == "C03" && acc != m.fChildText {
 				continue
@@ -389,14 +383,8 @@ func normalParseTS(w *World, ru *Rule, m *parserModel) (*tsConfig, bool) {
 		}
 	}
 	moves := map[ssa.Instruction]bool{}
-	for i, e := range m.cursorPhi.Edges {
-		if e == ssa.Value(m.cursorPhi) {
-			continue
-		}
-		if p, isP := e.(*ssa.Parameter); isP && p.Parent() == m.fn {
-			continue
-		}
-		pred := m.cursorPhi.Block().Preds[i]
+	for _, mv := range m.cursorMoves() {
+		pred := mv.pred
 		// the move must happen under key == Value()
 		if m.underCommandMatch(pred) {
 			moves[pred.Instrs[len(pred.Instrs)-1]] = true
